@@ -289,6 +289,94 @@ theorem oval_module_flattening_counterexample :
       [("nodejs", "nodejs:12"), ("nodejs", "nodejs:14"), ("npm", "nodejs:12"), ("npm", "nodejs:14")] := by
   decide
 
+/-- Red Hat OVAL: a definition whose type is not skipped and whose affected CPEs
+    all unbind gets one prototype per non-empty CPE, in order, carrying the
+    advisory's title, description, issue date, links, severity string, the
+    documented severity, the updater's distribution and the repository
+    (CPE, key `rhel-cpe-repository`); a CPE that does not unbind makes the
+    definition yield nothing. -/
+theorem oval_rhel_repositories (sev : String → Nat) (updater dist key : String) (ign : Bool) (d : OvalDef) (t : String)
+    (ht : rhelDefType d.id = some t)
+    (hs : ¬ (t = ovalDefUnaffected ∨ t = ovalDefNone ∨ (ign = true ∧ t = ovalDefCve))) :
+    ((∀ c ∈ d.cpes, c.1 = "" ∨ c.2 = true) →
+      protoRhel sev updater dist ign ovalDefUnaffected ovalDefNone ovalDefCve key d =
+        some (((d.cpes.filter fun c => c.1 ≠ "").map (·.1)).map fun c =>
+          ({ updater := updater, name := d.title, desc := d.desc, links := ovalLinks d, sev := d.severity, nsev := sev d.severity,
+             dist := dist, issued := d.issued, repo := c ++ "|" ++ key ++ "|" } : Vuln))) ∧
+    ((∃ c ∈ d.cpes, c.1 ≠ "" ∧ c.2 = false) →
+      protoRhel sev updater dist ign ovalDefUnaffected ovalDefNone ovalDefCve key d = none) := by
+  have hcp : ∀ l : List (String × Bool), (∀ c ∈ l, c.1 = "" ∨ c.2 = true) → rhelCpes l = some ((l.filter fun c => c.1 ≠ "").map (·.1)) := by
+    intro l
+    induction l with
+    | nil => intro _; rfl
+    | cons c rest ih =>
+      intro h
+      obtain ⟨s, ok⟩ := c
+      have hc := h (s, ok) (List.mem_cons_self ..)
+      have ih' := ih (fun c' hc' => h c' (List.mem_cons_of_mem _ hc'))
+      simp only [rhelCpes]
+      by_cases hs : s = ""
+      · simp [hs, ih']
+      · have hok : ok = true := by rcases hc with h1 | h1; exact absurd h1 hs; exact h1
+        simp [hs, hok, ih']
+  have hbad : ∀ l : List (String × Bool), (∃ c ∈ l, c.1 ≠ "" ∧ c.2 = false) → rhelCpes l = none := by
+    intro l
+    induction l with
+    | nil => rintro ⟨c, hc, _⟩; cases hc
+    | cons c rest ih =>
+      rintro ⟨c', hc', hne, hf⟩
+      obtain ⟨s, ok⟩ := c
+      simp only [rhelCpes]
+      by_cases hs : s = ""
+      · simp only [hs, if_true]
+        rcases List.mem_cons.1 hc' with rfl | hr
+        · exact absurd hs hne
+        · exact ih ⟨c', hr, hne, hf⟩
+      · simp only [hs, if_false]
+        by_cases hok : ok = true
+        · simp only [hok]
+          rcases List.mem_cons.1 hc' with h1 | hr
+          · rw [h1] at hf; simp at hf; exact absurd hok (by simp [hf])
+          · simp [ih ⟨c', hr, hne, hf⟩]
+        · simp [hok]
+  constructor
+  · intro h
+    unfold protoRhel
+    simp only [ht]
+    rw [if_neg hs, hcp _ h]
+    simp
+  · intro h
+    unfold protoRhel
+    simp only [ht]
+    rw [if_neg hs, hbad _ h]
+    rfl
+
+/-- Oracle OVAL: one prototype per known platform string of the definition's
+    `affected` elements, in document order, each with that platform's
+    distribution (`oracleProtoOf`: title, description, issue date, links,
+    severity string and documented severity of the advisory); a definition
+    without a known platform is skipped. -/
+theorem oval_oracle_platforms (sev : String → Nat) (updater : String) (platformDist : List (String × String)) (d : OvalDef) :
+    protoOracle sev updater platformDist d =
+      if (oraclePlatformDists platformDist d).isEmpty then none
+      else some ((oraclePlatformDists platformDist d).map (oracleProtoOf sev updater d)) := by
+  unfold protoOracle
+  have : (d.platforms.flatMap fun ps => ps.filterMap fun p => (assoc? platformDist p).map fun dist =>
+      ({ updater := updater, name := d.title, desc := d.desc, links := ovalLinks d, sev := d.severity, nsev := sev d.severity,
+         dist := dist, issued := d.issued } : Vuln)) = (oraclePlatformDists platformDist d).map (oracleProtoOf sev updater d) := by
+    simp only [oraclePlatformDists, List.map_flatMap, List.map_filterMap]
+    rfl
+  simp only [this]
+  cases (oraclePlatformDists platformDist d) <;> simp
+
+/-- Arch operations of OVAL states: `equals`, `not equals` and `pattern match`
+    map to the corresponding claircore operations, anything else to none — and
+    the state's arch string is carried verbatim. -/
+theorem oval_arch_operation (p : Vuln) (name m : String) (st : OvalState) (a : OvalArch) (h : st.arch = some a) :
+    (rpmVuln p name (some st) m).pkgArch = a.body ∧
+    (rpmVuln p name (some st) m).archOp = (if a.op = 1 then 1 else if a.op = 2 then 2 else if a.op = 11 then 3 else 0) := by
+  simp [rpmVuln, h, mapArchOp]
+
 /-! ### OVAL read with the criteria operators -/
 
 /-- AND/OR-aware reading.  `inScope [] t` pairs every criterion of the tree `t`
